@@ -13,10 +13,10 @@ use std::time::Duration;
 use vcore::refval::RefVal;
 use vcore::report::Report;
 
-const EVENTS: [&str; 27] = [
+const EVENTS: [&str; 28] = [
     "send->live", "send->dead", "send->never", "reg_send->registered", "reg_send->unknown", "exit->live", "monitor_exit->live", "rpc_reply",
     "unknown_control_99", "control_rejected_by_parser", "tick", "undecodable_body", "wrong_marker", "overlong_length", "premature_close", "close",
-    "silence_5s", "silence_9s", "silence_15s", "local:register_later", "reg_send->later", "send->crashed", "local:send_fails", "local:move_name", "local:register_taken_name", "send->live_in_node_local_form", "reg_send->latin1_name",
+    "silence_5s", "silence_9s", "silence_15s", "local:register_later", "reg_send->later", "send->crashed", "local:send_fails", "local:move_name", "local:register_taken_name", "send->live_in_node_local_form", "reg_send->latin1_name", "stall_mid_frame_25s",
 ];
 
 fn execute(seq: &[usize], ctx: &WorkerCtx) -> ExecResult { execute_split(seq, None, ctx) }
@@ -113,7 +113,28 @@ fn execute_split(seq: &[usize], split: Option<usize>, ctx: &WorkerCtx) -> ExecRe
                 }
                 "reg_send->unknown" => { nw.peer.send(&reg_send_to("nobody", mark.clone())); }
                 "reg_send->later" => { nw.peer.send(&reg_send_to("later", mark.clone())); if later_registered { delivered = Some(("p1".into(), format!("msg:{}", mark))); } }
-                "exit->live" => { nw.peer.send(&pt(RefVal::Tuple(vec![RefVal::int(3), peer_pid(5), d1.clone(), RefVal::atom("boom")]), None)); delivered = Some(("p1".into(), format!("exit:{}:{}", peer_pid(5), RefVal::atom("boom")))); }
+                "exit->live" => {
+                    // (the reason is one of the atoms exit signals usually carry, by position in the sequence)
+                    let reason = RefVal::atom(["boom", "killed", "noconnection", "noproc", "timeout", "normal", "shutdown", "kill", "nodedown"][(n as usize - 1) % 9]);
+                    nw.peer.send(&pt(RefVal::Tuple(vec![RefVal::int(3), peer_pid(5), d1.clone(), reason.clone()]), None)); delivered = Some(("p1".into(), format!("exit:{}:{}", peer_pid(5), reason)));
+                }
+                "stall_mid_frame_25s" => {
+                    // half of a frame, then nothing for 25 s (the I/O timeout is 10 s), then the rest: the peer broke the framing's
+                    // timing - the receiver may give the connection up (and must then deregister it) or deliver the message
+                    let f = send_to(&d1, mark.clone());
+                    let cut = f.len() / 2;
+                    nw.peer.send(&f[..cut]);
+                    nw.w.settle(&mut nw.peer, &probe).await;
+                    tokio::time::advance(std::time::Duration::from_secs(25)).await;
+                    nw.w.settle(&mut nw.peer, &probe).await;
+                    nw.peer.send(&f[cut..]);
+                    nw.w.settle(&mut nw.peer, &probe).await;
+                    is_frame = false;
+                    let registered = nw.node.connections().contains_key(PEER_NAME);
+                    let got_it = log.lock().unwrap().iter().any(|x| x.0 == "p1" && x.1 == format!("msg:{}", mark));
+                    if registered && !got_it { res.violations.push(("connection still registered although its receiver has stopped".into(), json!({"events": seq.iter().map(|&e| EVENTS[e]).collect::<Vec<_>>(), "what": "a frame stalled for 25 s in its middle; the connection is still listed but the frame (completed afterwards) was never delivered"}))); }
+                    if got_it { delivered = Some(("p1".into(), format!("msg:{}", mark))); } else { alive_ideal = false; alive_asis = false; }
+                }
                 "monitor_exit->live" => {
                     // (1..5 id words, by position in the sequence: alias references have five)
                     let r = RefVal::Ref { node: PEER_NAME.into(), creation: crate::world::PEER_CREATION, ids: [vec![1, 2, 3], vec![1, 2, 3, 4, 5], vec![9], vec![1, 2, 3, 4], vec![7, 8]][(n as usize - 1) % 5].clone() };
